@@ -4,6 +4,8 @@ import (
 	"bytes"
 	"context"
 	"fmt"
+	"github.com/AdguardTeam/AdGuardHome/internal/dhcpd"
+	"github.com/insomniacslk/dhcp/dhcpv4"
 	"net"
 	"net/http"
 	"net/http/httptest"
@@ -16,7 +18,6 @@ import (
 
 	"github.com/AdguardTeam/AdGuardHome/internal/aghnet"
 	"github.com/AdguardTeam/AdGuardHome/internal/client"
-	"github.com/AdguardTeam/AdGuardHome/internal/dhcpsvc"
 	"github.com/AdguardTeam/AdGuardHome/internal/dnsforward"
 	"github.com/AdguardTeam/AdGuardHome/internal/filtering"
 	"github.com/AdguardTeam/AdGuardHome/internal/filtering/safesearch"
@@ -37,6 +38,7 @@ const serverName = "dns.example"
 // log's FindClient and the statistics' ShouldCountClient go through a real
 // clientsContainer whose client checker is the DNS server itself.
 type asm struct {
+	dhcp     *dhcpd.VerifC10Server
 	dir      string
 	server   *dnsforward.Server
 	filter   *filtering.DNSFilter
@@ -129,7 +131,20 @@ func build(base string, startLoops bool) (a *asm, err error) {
 	if err = spare.SetIDs([]string{"10.9.9.9", "cid-spare"}); err != nil {
 		return nil, err
 	}
-	a.clients, err = client.NewStorage(ctx, &client.StorageConfig{Logger: srv.Discard, Clock: timeutil.SystemClock{}, DHCP: leaseDHCP{}, InitialClients: []*client.Persistent{kid, spare}, RuntimeSourceDHCP: true})
+	// A real DHCP server (listeners not started) with one reservation carrying
+	// a hostname for the address the unknown-client request comes from.
+	a.dhcp, err = dhcpd.VerifC10New(dhcpd.VerifC10Conf{
+		DataDir: filepath.Join(dir, "dhcp"), Gateway: netip.MustParseAddr("192.168.1.1"), Mask: netip.MustParseAddr("255.255.255.0"),
+		RangeStart: netip.MustParseAddr("192.168.1.100"), RangeEnd: netip.MustParseAddr("192.168.1.120"), Self: netip.MustParseAddr("192.168.1.2"), LeaseSec: 3600,
+		HTTPRegister: a.reg, ConfigModified: a.configModified,
+	})
+	if err != nil {
+		return nil, fmt.Errorf("dhcp: %w", err)
+	}
+	if err = a.dhcp.AddStatic(net.HardwareAddr{2, 0, 0, 0, 0, 9}, netip.MustParseAddr("192.168.1.9"), "laptop"); err != nil {
+		return nil, fmt.Errorf("dhcp reservation: %w", err)
+	}
+	a.clients, err = client.NewStorage(ctx, &client.StorageConfig{Logger: srv.Discard, Clock: timeutil.SystemClock{}, DHCP: a.dhcp, InitialClients: []*client.Persistent{kid, spare}, RuntimeSourceDHCP: true})
 	if err != nil {
 		return nil, err
 	}
@@ -217,7 +232,7 @@ func build(base string, startLoops bool) (a *asm, err error) {
 		},
 		ServePlainDNS: true,
 	}
-	a.server, err = dnsforward.VerifNewServer(&dnsforward.VerifServerParams{Filter: a.filter, Stats: a.stats, QueryLog: a.qlog, Anonymizer: anonymizer, Conf: conf, Upstream: a.up})
+	a.server, err = dnsforward.VerifNewServer(&dnsforward.VerifServerParams{Filter: a.filter, Stats: a.stats, QueryLog: a.qlog, Anonymizer: anonymizer, Conf: conf, Upstream: a.up, DHCP: a.dhcp.Iface()})
 	if err != nil {
 		return nil, err
 	}
@@ -229,26 +244,6 @@ func build(base string, startLoops bool) (a *asm, err error) {
 	a.h["POST /control/clients/delete"] = vc.Handler("delete")
 	a.h["POST /control/clients/search"] = vc.Handler("search")
 	return a, nil
-}
-
-// leaseDHCP is a DHCP view with one lease carrying a hostname for the address
-// the unknown-client request comes from.
-type leaseDHCP struct{}
-
-func (leaseDHCP) Leases() []*dhcpsvc.Lease {
-	return []*dhcpsvc.Lease{{IP: netip.MustParseAddr("192.168.1.9"), Hostname: "laptop", HWAddr: net.HardwareAddr{2, 0, 0, 0, 0, 9}}}
-}
-func (leaseDHCP) HostByIP(ip netip.Addr) string {
-	if ip == netip.MustParseAddr("192.168.1.9") {
-		return "laptop"
-	}
-	return ""
-}
-func (leaseDHCP) MACByIP(ip netip.Addr) net.HardwareAddr {
-	if ip == netip.MustParseAddr("192.168.1.9") {
-		return net.HardwareAddr{2, 0, 0, 0, 0, 9}
-	}
-	return nil
 }
 
 func (a *asm) close() {
@@ -293,6 +288,14 @@ var requests = []reqBody{
 	}},
 	{"R4-udp-forwarded-unknown-client", func(a *asm) (*dns.Msg, *dns.Msg, error) {
 		return handle(a, &proxy.DNSContext{Req: mkReq(14, "plain.example.org", dns.TypeAAAA), Proto: proxy.ProtoUDP, Addr: netip.MustParseAddrPort("192.168.1.9:4444"), RequestID: 14})
+	}},
+	{"R5-udp-dhcp-hostname-and-ptr", func(a *asm) (*dns.Msg, *dns.Msg, error) {
+		// A name of the local domain and the reverse name of a leased address are
+		// answered from the DHCP lease table.
+		if resp, req, err := handle(a, &proxy.DNSContext{Req: mkReq(15, "laptop.lan", dns.TypeA), Proto: proxy.ProtoUDP, Addr: netip.MustParseAddrPort("192.168.1.30:5555"), RequestID: 15}); err != nil || resp == nil {
+			return resp, req, err
+		}
+		return handle(a, &proxy.DNSContext{Req: mkReq(16, "9.1.168.192.in-addr.arpa", dns.TypePTR), Proto: proxy.ProtoUDP, Addr: netip.MustParseAddrPort("192.168.1.30:5556"), RequestID: 16})
 	}},
 }
 
@@ -453,7 +456,43 @@ var operations = []opBody{
 		c, b := a.call("POST", "/control/dns_config", `{"blocking_mode":"nxdomain","disable_ipv6":true,"dnssec_enabled":true,"blocked_response_ttl":30}`)
 		return expect2xx(c, b, "dns_config")
 	}},
+	{"dhcp-add-static-lease", func(a *asm) string {
+		c, b := a.call("POST", "/control/dhcp/add_static_lease", `{"mac":"02:00:00:00:00:21","ip":"192.168.1.21","hostname":"printer"}`)
+		return expect2xx(c, b, "dhcp/add_static_lease")
+	}},
+	{"dhcp-remove-static-lease", func(a *asm) string {
+		c, b := a.call("POST", "/control/dhcp/remove_static_lease", `{"mac":"02:00:00:00:00:09","ip":"192.168.1.9","hostname":"laptop"}`)
+		return expect2xx(c, b, "dhcp/remove_static_lease")
+	}},
+	{"dhcp-update-static-lease", func(a *asm) string {
+		c, b := a.call("POST", "/control/dhcp/update_static_lease", `{"mac":"02:00:00:00:00:09","ip":"192.168.1.10","hostname":"laptop2"}`)
+		return expect2xx(c, b, "dhcp/update_static_lease")
+	}},
+	{"dhcp-status", func(a *asm) string {
+		c, b := a.call("GET", "/control/dhcp/status", "")
+		return expect2xx(c, b, "dhcp/status")
+	}},
 	// Background workers (bodies of the server's own goroutines).
+	{"bg-dhcp-client-handshake", func(a *asm) string {
+		// What the DHCP listener goroutine does for a new client: DISCOVER,
+		// then REQUEST of the offered address.
+		mac := net.HardwareAddr{2, 0, 0, 0, 0, 0x31}
+		disc, err := dhcpv4.NewDiscovery(mac, dhcpv4.WithOption(dhcpv4.OptHostName("phone")))
+		if err != nil {
+			return ""
+		}
+		_, offer, err := a.dhcp.Handle(disc)
+		if err != nil || offer == nil || offer.YourIPAddr == nil || offer.YourIPAddr.IsUnspecified() {
+			return ""
+		}
+		req, err := dhcpv4.New(dhcpv4.WithHwAddr(mac), dhcpv4.WithMessageType(dhcpv4.MessageTypeRequest), dhcpv4.WithOption(dhcpv4.OptHostName("phone")),
+			dhcpv4.WithOption(dhcpv4.OptRequestedIPAddress(offer.YourIPAddr)), dhcpv4.WithOption(dhcpv4.OptServerIdentifier(net.IPv4(192, 168, 1, 2))))
+		if err != nil {
+			return ""
+		}
+		_, _, _ = a.dhcp.Handle(req)
+		return ""
+	}},
 	{"bg-filter-refresh", func(a *asm) string {
 		_ = os.WriteFile(filepath.Join(a.dir, "lists", "block.txt"), []byte("||blocked.test^\n||bad-target.test^\n||periodic.test^\n"), 0o644)
 		a.filter.VerifTryRefresh(true, true, true)
